@@ -63,6 +63,27 @@ func TestVerifParallel(t *testing.T) {
 		bad, detail := 0, ""
 		p := catch(func() {
 			f.setup(b)
+			// meanwhile another builder keeps mocking and resetting OTHER functions of the same package (neighbours in the text
+			// segment, usually in the same page): callers of a mocked function must not notice
+			stop := make(chan struct{})
+			var bg sync.WaitGroup
+			bg.Add(1)
+			go func() {
+				defer bg.Done()
+				nb := mocker.Create()
+				for i := 0; ; i++ {
+					select {
+					case <-stop:
+						nb.Reset()
+						return
+					default:
+					}
+					nb.Func(fn.SentinelA).Return(i)
+					nb.Func(fn.SentinelB).Apply(func(a int) int { return a })
+					nb.Reset()
+				}
+			}()
+			defer func() { close(stop); bg.Wait() }()
 			var wg sync.WaitGroup
 			var mu sync.Mutex
 			for g := 0; g < G; g++ {
